@@ -181,6 +181,29 @@ pub fn package(name: &str, files: &[FFile], archive: Vec<u8>, compressor: Option
     split(&x).expect("foreign package splits")
 }
 
+/// The same newc archive with the hexadecimal header fields printed in upper case (`%08X`, as GNU cpio and
+/// the kernel's gen_init_cpio write them).
+pub fn newc_upper_hex(a: &[u8]) -> Vec<u8> {
+    let mut out = a.to_vec();
+    let mut o = 0usize;
+    while o + 110 <= out.len() && &out[o..o + 5] == b"07070" {
+        let field = |k: usize, buf: &[u8]| usize::from_str_radix(std::str::from_utf8(&buf[o + 6 + 8 * k..o + 14 + 8 * k]).unwrap_or("0"), 16).unwrap_or(0);
+        let (filesize, namesize) = (field(6, &out), field(11, &out));
+        for b in out[o + 6..o + 110].iter_mut() {
+            b.make_ascii_uppercase();
+        }
+        let mut next = o + 110 + namesize;
+        next = (next + 3) / 4 * 4;
+        next += filesize;
+        next = (next + 3) / 4 * 4;
+        if next <= o {
+            break;
+        }
+        o = next;
+    }
+    out
+}
+
 pub fn sample_files() -> Vec<FFile> {
     let mut cfg = FFile::regular("/etc/", "hand.conf", b"key=value\n");
     cfg.flags = 1;
